@@ -721,7 +721,7 @@ def run(ctx: core.Ctx):
         for u in units:
             shards.append((shard_d1, (fn, u, "q", ("x", LIT), qmodes)))
     # 6. filter x filter (and ops/methods on either side)
-    d6_modes = ("static",) if q else MODES
+    d6_modes = ("static",) if q else ("static", "blk-true", "blk-flag-off")
     outer_groups = chunks(fnames if q else units, 1 if q else 4)
     for inner in units:
         for og in outer_groups:
